@@ -199,6 +199,7 @@ def _worker_main(conn, progress, slot):
     global _PROGRESS
     _PROGRESS = (progress, slot)
     setup_path()
+    history = []        # indices of the shards this worker has run so far, in order
     while True:
         try:
             msg = conn.recv()
@@ -208,7 +209,19 @@ def _worker_main(conn, progress, slot):
             return
         idx, args = msg
         progress[slot] = 0
-        conn.send((idx, run_shard(args)))
+        res = run_shard(args)
+        res['worker_history'] = list(history)
+        history.append(idx)
+        conn.send((idx, res))
+
+
+def run_history(args):
+    """Run a list of shards in order in this (fresh) process; return the result of the last one."""
+    prop, shard_list = args
+    res = None
+    for sh in shard_list:
+        res = run_shard((prop, sh))
+    return res
 
 
 def run_pool(prop, mod, shards, jobs):
@@ -350,6 +363,26 @@ def reproduce(prop, f):
     return True, ''
 
 
+def reproduce_in_worker_history(prop, f, shards):
+    """Last resort: replay, in a fresh spawned interpreter, every shard the worker had run before
+    the one that failed (state leaking between unrelated inputs), then the failing shard."""
+    hist = f.get('worker_history')
+    if not hist or f.get('shard') is None:
+        return False
+    seq = [shards[i] for i in hist] + [f['shard']]
+    ctxmp = multiprocessing.get_context('spawn')
+    with ctxmp.Pool(1, initializer=_init_worker) as pool:
+        r = pool.apply(run_history, ((prop, seq),))
+    if r is None or 'error' in r:
+        return False
+    for x in r['fails']:
+        if x['msg'] == f['msg']:
+            f['case'], f['index'], f['expected'], f['observed'] = x['case'], x['index'], x['expected'], x['observed']
+            f['history_shards'] = seq
+            return True
+    return False
+
+
 def reproduce_in_history(prop, f):
     """A failure that does not reproduce from its case alone may depend on the calls made
     before it (shared mutable state in the library).  Re-run the shard up to that case in a
@@ -379,6 +412,7 @@ def write_replay(prop, f):
     with open(path, 'w', encoding='utf-8') as fh:
         json.dump({'property': prop, 'sub': f['sub'], 'case': f['case'], 'message': f['msg'],
                    'history_dependent': bool(f.get('history_dependent')), 'shard': f.get('shard'), 'index': f.get('index'),
+                   'history_shards': f.get('history_shards'),
                    'expected': f['expected'], 'observed': f['observed'],
                    'repro_python': f.get('repro')}, fh, indent=1, ensure_ascii=True)
     return path
@@ -443,6 +477,8 @@ def main(argv=None):
             tot[k] += r[k]
         cats.update(r['cats'])
         outcomes.update(r['outcomes'])
+        for x in r['fails']:
+            x['worker_history'] = r.get('worker_history', [])
         fails.extend(r['fails'])
         max_depth = max(max_depth, r['max_depth'])
         for c in r['caps']:
@@ -464,6 +500,7 @@ def main(argv=None):
     seen_sig = {}
     violations, known_hits = [], collections.OrderedDict()
     harness_errors = []
+    confirmed_history = set()
     for f in fails:
         key = fail_key(f)
         hit = next((k for k in known if k['match'] in key), None)
@@ -482,9 +519,14 @@ def main(argv=None):
                 continue
         ok, why = (True, '') if f.get('hang') else reproduce(prop, f)
         if not ok:
+            sig_key = ('hist',) + sig
             if reproduce_in_history(prop, f):
                 f['history_dependent'] = True
                 f['msg'] += ' | history-dependent: passes on a fresh interpreter, fails (reproducibly) after the preceding cases of its shard'
+            elif sig_key in confirmed_history or reproduce_in_worker_history(prop, f, shards):
+                confirmed_history.add(sig_key)
+                f['history_dependent'] = True
+                f['msg'] += ' | history-dependent: passes on a fresh interpreter and in a fresh run of its shard, fails (reproducibly) after the shards its worker process had run before'
             else:
                 harness_errors.append((f, why))
                 continue
@@ -535,10 +577,12 @@ def main(argv=None):
         print(f'  CAP: {c}')
     for m, (k, c) in known_hits.items():
         print(f'KNOWN-FINDING: property={prop} {k["text"]} (matched {c} cases)')
-    if harness_errors:
+    if harness_errors and not violations:
         for f, why in harness_errors[:3]:
             print(f'HARNESS-ERROR property={prop} case={canon(f["case"])} {why}', file=sys.stderr)
         return 3
+    for f, why in harness_errors[:3]:
+        print(f'  note: a further failure was observed but could not be reproduced from its history: {canon(f["case"])[:200]}', file=sys.stderr)
     if violations:
         for i, f in enumerate(violations):
             path = write_replay(prop, f)
@@ -553,6 +597,8 @@ def main(argv=None):
 def replay_file(prop, mod, path):
     d = json.load(open(path, encoding='utf-8'))
     if d.get('history_dependent'):
+        for sh in (d.get('history_shards') or [])[:-1]:
+            run_shard((prop, sh))
         r = run_shard((prop, d['shard'], (), d['index']))
         hits = [x for x in r.get('fails', []) if x['index'] == d['index']]
         if 'error' in r:
